@@ -94,7 +94,7 @@ def run_case(seed, i, tier):
                 form, bsz, k, plan.policy, argv, detail), rp))
         if vs:
             break
-    if i % 50 == 0:
+    if True:
         cr.sample = {"form": form, "argv": argv, "sources": merge.describe(srcs), "schedules": K,
                      "expected_stdout_head": expected[:200].decode("latin-1")}
     return cr
